@@ -47,9 +47,11 @@ RULE = ("each run draws 1-3 plots, the options of the chain (MakeFilename varian
         "is true in the context a stage yields whenever it left a file whose content differs "
         "from the end of the previous run and stays true downstream; a plot whose inputs are "
         "unchanged and whose files are all present causes no write and no launch; names follow "
-        "the MakeFilename rules. non-trivial = at least two runs with a change or a deletion; "
+        "the MakeFilename rules. One scenario in four is the grouped variant: GroupBy, group_plots, "
+        "MapGroup(ToCSV, MakeFilename, Write) write one csv per member and one tex / pdf / png per "
+        "group of two plots; the members' output.changed must be combined into the group's. non-trivial = at least two runs with a change or a deletion; "
         "distinct = distinct abstracted event-kind sequences")
-REAL = ["lena.output.ToCSV", "lena.output.MakeFilename", "lena.output.Write", "lena.output.RenderLaTeX",
+REAL = ["lena.flow.GroupBy, lena.flow.group_plots, lena.flow.MapGroup (grouped variant)", "lena.output.ToCSV", "lena.output.MakeFilename", "lena.output.Write", "lena.output.RenderLaTeX",
         "lena.output.LaTeXToPDF", "lena.output.PDFToPNG", "lena.core.Sequence", "lena.structures.histogram",
         "jinja2 (template loading through a FunctionLoader on the simulated disk, rendering)"]
 STUB = ["SimFS / SimOS / open (disk, mtimes)", "simulated clock (ticks at every mutation, jumps "
@@ -64,19 +66,20 @@ ASSUMPTIONS = [
     "inputs are unchanged and whose files all existed at the start of the run",
     "with existing_unchanged=True only histories that keep the user's promise are generated (an "
     "existing file is current)",
-    "clock ties, backward clock jumps and failing converters are explored only in beyond_quantifier "
-    "mode and never produce a verdict",
+    "clock ties, backward clock jumps, failing converters and runs abandoned by their consumer are "
+    "explored only in beyond_quantifier mode and never produce a verdict",
     "the signature of a violating history is its earliest violated stage invariant; the history is "
     "not judged after it",
 ]
 FAULT_KINDS = ["delete-csv", "delete-tex", "delete-pdf", "delete-png", "data-changed", "template-changed",
-               "converter-finishes-after-k-polls", "converter-finishes-at-communicate"]
+               "converter-finishes-after-k-polls", "converter-finishes-at-communicate",
+               "run-abandoned-by-consumer"]
 EXPECTED_PROBES = ["csv-deleted-and-data-changed", "tex-deleted-and-template-changed", "pdf-deleted-only",
                    "png-deleted-only", "unchanged-run-no-work", "converter-finished-between-polls",
                    "completion-order-differs-from-launch-order", "existing_unchanged", "write-overwrite",
                    "second-makefilename-not-overwriting", "second-makefilename-overwriting",
                    "prefix-and-suffix", "fixpoint-reached", "mtime-comparison-used",
-                   "changed-plot-next-to-unchanged-plot"]
+                   "changed-plot-next-to-unchanged-plot", "grouped-variant", "group-with-one-changed-member"]
 
 _TIER = ["quick"]
 
@@ -208,6 +211,8 @@ def gen_scenario(tape):
         # completion plan: per launch index, finish after k polls (0..3) or only at communicate
         run.plan = [tape.choice([None, 0, 1, 2, 3], "finish-after") for _ in range(sc.nplots)]
         run.failplan = [sc.fail and tape.chance(1, 3, "fail") for _ in range(sc.nplots)]
+        # beyond the quantifier: the consumer abandons the run after k results
+        run.interrupt = tape.draw(sc.nplots, "interrupt-after") if tape.chance(1, 12, "interrupt") else None
         sc.runs.append(run)
     return sc
 
@@ -294,10 +299,14 @@ class World(object):
 
 def run(tape):
     res = RunResult()
+    if tape.weighted([(3, "flat"), (1, "grouped")], "variant") == "grouped":
+        from . import c19g
+        return c19g.run_grouped(tape, res, World, write_mod, latex_mod, png_mod)
     sc = gen_scenario(tape)
     w = World(sc, res)
     log = res.log
-    judged = sc.clock == "normal" and not sc.fail
+    judged = [sc.clock == "normal" and not sc.fail]
+    why = ["clock-" + sc.clock if sc.clock != "normal" else "failing-converter"]
     res.say("%d plots, MakeFilename %s, Write#1 %s, Write#2 %s, LaTeXToPDF(overwrite=%s), "
             "PDFToPNG(overwrite=%s), clock %s%s; %d runs + 2 unchanged runs"
             % (sc.nplots, sc.mkf, sc.w1, sc.w2, sc.ow_pdf, sc.ow_png, sc.clock,
@@ -318,10 +327,10 @@ def run(tape):
 
     def viol(sig, detail):
         stop[0] = True
-        if judged:
+        if judged[0]:
             res.viol(sig, detail)
         else:
-            key = "%s under %s" % (sig, "clock-" + sc.clock if sc.clock != "normal" else "failing-converter")
+            key = "%s under %s" % (sig, why[0])
             res.beyond[key] = res.beyond.get(key, 0) + 1
 
     extra = []
@@ -413,9 +422,20 @@ def run(tape):
         sub = SimSubprocess(w.fs, log=log, plan=planner, fail_plan=failer if sc.fail else None)
         rec = {}
         seq = w.pipeline(rec, sub)
+        interrupt = getattr(spec, "interrupt", None)
         try:
             with contextlib.redirect_stdout(io.StringIO()):
-                out = list(seq.run(iter(w.values())))
+                if interrupt is None:
+                    out = list(seq.run(iter(w.values())))
+                else:
+                    gen = seq.run(iter(w.values()))
+                    out = []
+                    for _ in range(interrupt):
+                        try:
+                            out.append(next(gen))
+                        except StopIteration:
+                            break
+                    gen.close()
         except Exception as e:  # noqa: BLE001
             if exception_origin(e) != "lena":
                 raise
@@ -431,6 +451,18 @@ def run(tape):
         if len(order) == sc.nplots and order != sorted(order):
             res.probe("completion-order-differs-from-launch-order")
 
+        if interrupt is not None:
+            # nothing is demanded of an abandoned run; what later runs make of the half-done
+            # work is explored but never a verdict (the quantifier has no interrupted runs)
+            res.fault("run-abandoned-by-consumer")
+            res.say("run %d abandoned by the consumer after %d results (beyond the quantifier: the "
+                    "history is not judged from here on)" % (r, len(out)))
+            log.ev("op", "interrupt", r, len(out))
+            if judged[0]:
+                judged[0] = False
+                why[0] = "a-run-abandoned-by-its-consumer"
+            w.prev = w.fs.image()
+            continue
         check_run(w, sc, res, r, spec, rec, out, sub, start_image, oplog_start, deleted, changed_data,
                   tchange, viol, is_extra)
         w.prev = w.fs.image()
